@@ -455,7 +455,7 @@ func TestC06(t *testing.T) {
 
 	// the three parts are independent (own networks, own stores) and largely wait: run them together
 	var wg sync.WaitGroup
-	for name, f := range map[string]func(){"shrex": c.shrexPhase, "bitswap": c.bitswapPhase, "cascade": c.cascadePhase, "bitswap_scripted_exchange": c.fakeExchangePhase} {
+	for name, f := range map[string]func(){"shrex": c.shrexPhase, "bitswap": c.bitswapPhase, "cascade": c.cascadePhase, "cascade_split": c.cascadeSplitPhase, "bitswap_scripted_exchange": c.fakeExchangePhase} {
 		wg.Add(1)
 		go func() {
 			defer wg.Done()
